@@ -107,6 +107,8 @@ fn classify(r : &Result<(), BuildError>) -> Verdict
 pub struct InvResult
 {
     pub verdict : Verdict,
+    /* what the user is shown for a WorkErrors result: (Display of the whole error, Display of each entry) */
+    pub report : Option<(String, Vec<String>)>,
     pub events : Vec<Event>,
     pub printed : Vec<Printed>,
     pub record : Vec<(u32, u16)>,
@@ -156,9 +158,16 @@ pub fn invoke(world : &World, is_build : bool, goal : Option<String>, rulefiles 
         }),
     };
 
+    let report = match &out.result
+    {
+        RootResult::Returned(Err(e @ BuildError::WorkErrors(v))) => Some((format!("{}", e), v.iter().map(|w| format!("{}", w)).collect())),
+        _ => None,
+    };
+
     InvResult
     {
         verdict : verdict,
+        report : report,
         events : out.events,
         printed : printer.lines,
         record : out.record,
@@ -587,6 +596,18 @@ impl Runner
                 self.user_op_happened();
                 None
             },
+            Op::PruneDirs =>
+            {
+                self.world.user_prune_empty_dirs(&ruler_dir());
+                self.user_op_happened();
+                None
+            },
+            Op::MakeDirs =>
+            {
+                for d in self.case.dirs.clone().iter() { if !d.starts_with('@') { self.world.user_mkdir(d); } }
+                self.user_op_happened();
+                None
+            },
             Op::Move{ from, to } =>
             {
                 self.world.user_rename(&from, &to);
@@ -837,6 +858,22 @@ pub fn oracle_c04(inv : &Inv, failed_last : &[Identity]) -> Vec<Violation>
                 return out;
             }
         },
+    }
+
+    // the report as the user reads it (Display of the returned error) carries every one of them
+    if let Some((whole, each)) = &inv.res.report
+    {
+        let mut multiplicity : BTreeMap<&String, usize> = BTreeMap::new();
+        for m in each.iter() { *multiplicity.entry(m).or_insert(0) += 1; }
+        for (m, k) in multiplicity.iter()
+        {
+            if m.len() > 0 && whole.matches(m.as_str()).count() < *k
+            {
+                out.push(vio("C04", "C04:report-text-loses-errors".to_string(),
+                    format!("op {}: {} failure(s) with the message {:?} were returned, the rendered report shows it {} time(s): {:?}", inv.op_index, k, m, whole.matches(m.as_str()).count(), whole)));
+                return out;
+            }
+        }
     }
 
     let runs = inv.runs_per_rule();
